@@ -299,19 +299,15 @@ func HarnessC25Validate() {
 	pvalShape := legacyRange("pvalidityShape", zz25ite(full, 2, 1))
 	switch pvalShape {
 	case 1:
-		if verifrt.Symbolic() {
-			pb.Validity = verifrt.NondetBytes("pvalidity", len(cvalidity))
-		} else {
-			// natively the text is derived from the same kind of (sec,nsec) pair
-			t := verifrt.NondetBytes("pvalidity", 12)
-			psec := int64(binary.BigEndian.Uint64(t[0:8]))
-			pnsec := int64(binary.BigEndian.Uint32(t[8:12]))
-			if psec < 0 || psec > zz25MaxSec || pnsec < 0 || pnsec >= 1000000000 {
-				pb.Validity = t // not a timestamp at all: differs from the signed text anyway
-			} else {
-				pb.Validity = zz25ValidityBytes(psec, pnsec)
-			}
-		}
+		// a timestamp text of its own, chosen relative to the clock reading like the signed one (so that a
+		// witness means the same under the virtual and the real clock); free to equal the signed one or not
+		pdelta := verifrt.NondetI64("pdelta")
+		pnsec := verifrt.NondetI64("pnsec")
+		verifrt.Assume(pdelta >= -1000000000)
+		verifrt.Assume(pdelta <= 1000000000)
+		verifrt.Assume(pnsec >= 0)
+		verifrt.Assume(pnsec < 1000000000)
+		pb.Validity = zz25ValidityBytes(now.Unix()+pdelta, pnsec)
 	case 2:
 		pb.Validity = append([]byte(nil), cvalidity[:len(cvalidity)-1]...)
 	}
